@@ -482,6 +482,9 @@ def c15(tier):
     checkgroup_model(ck, tier)
     cg_traces(ck, binary, defs, groups[: (40 if tier == "quick" else 200)], dmax, tier)
     ck.extra["cancellations_through_api_handlers"] = transport_cancels[0]
+    # requests with a deadline on a long-lived server whose limits and namespaces (literal, and in a watched OPL file) change between them
+    import p_reconf
+    p_reconf.reconf(ck, binary, tier, "C15")
     ck.rule = ("sampled CheckCases.tla cases; context cancelled before the call and at the gate before every storage call k (engine), and at the first, middle and last "
                "storage call through the REST, gRPC and gRPC batch handlers with storage that honours its context and is slow otherwise; "
                "every storage call failing; goroutine dump after return; non-trivial: cancellation landed while the check was running")
